@@ -1,13 +1,13 @@
 """check configuration for C20 (loaded by lib/zvprops.py)"""
 
-PROP = {'gen_tables': ['LevelText'],
+PROP = {'gen_tables': ['LevelText', 'TransLevel'],
  'rule': 'ops: all 256 level values through every text form; level texts (names, aliases, case variants, near-misses, hostile bytes) through '
          'UnmarshalText/AtomicLevel/ParseLevel/flag/JSON; sequences of 1–4 HTTP requests (method × content type × body/query shapes); non-trivial = '
          'non-empty text / a request sequence that changed the level; distinct = distinct canonical op JSON',
  'assumptions': ['bytes.ToLower is a parameter of the theorems (its image is passed to the model by the harness)',
                  'net/http form parsing and encoding/json decoding are re-done with the standard library only by the harness (refDecode) and handed '
                  'to the model'],
- 'technique': 'Lean 4: decide over the regenerated 256-level table and the unmarshalText switch, case analysis of the HTTP handler decision; tie: Gen tables + correspondence on texts and request sequences',
+ 'technique': 'Lean 4: decide over the regenerated 256-level table and the unmarshalText switch, case analysis of the HTTP handler decision; tie: Gen tables + correspondence on texts and request sequences + translated source (unmarshalText, UnmarshalText, ParseLevel, String, CapitalString, serveHTTP, decodePutRequest/URL/JSON proved to be the model functions the theorems are stated over)',
  'level_text': "Round-trip, rejection and the HTTP decision are proved over tables regenerated from today's source, parametric in bytes.ToLower; request decoding by net/http and encoding/json is replayed with the stdlib only.",
  'level_note': 'net/http form parsing and encoding/json decoding are trusted and fed to the model by the harness.',
 }
